@@ -69,11 +69,23 @@ def simulate_all(chk, module, configs, label):
     return out
 
 
+def present(traces, fn, attack):
+    """the same simulated matrix in several storage types: int16 as emitted, uint8 / float32 (shifted by +2 so that it is non-negative)"""
+    k = (len(fn) + len(attack)) % 3
+    if attack == 'TPL':
+        return traces
+    if k == 0 or attack == 'DPA':
+        return (traces + 2).astype('uint8')
+    if k == 1:
+        return (traces + 2).astype('float32')
+    return traces
+
+
 def attack_once(cipher, fn, attack, key, meta_in, traces, guesses, words, bs, kw_words):
     import scared
     mod = getattr(scared, cipher).selection_functions.encrypt
     tag = 'ciphertext' if (fn.startswith('Last') or fn.endswith('LastRounds')) else 'plaintext'
-    ths = scared.traces.read_ths_from_ram(samples=traces, **{tag: np.array(meta_in, dtype='uint8'), 'key': np.array([key] * len(meta_in), dtype='uint8')})
+    ths = scared.traces.read_ths_from_ram(samples=present(traces, fn, attack), **{tag: np.array(meta_in, dtype='uint8'), 'key': np.array([key] * len(meta_in), dtype='uint8')})
     scared.set_batch_size(bs)
     sfw = getattr(mod, fn)(guesses=np.array(guesses, dtype='uint8'), words=np.array(words, dtype='uint8'))
     hw = scared.HammingWeight()
@@ -85,7 +97,7 @@ def attack_once(cipher, fn, attack, key, meta_in, traces, guesses, words, bs, kw
     elif attack in ('ANOVA', 'NICV', 'SNR'):
         a = getattr(scared, attack + 'Attack')(selection_function=sfw, model=hw, discriminant=scared.maxabs, partitions=range(9), precision='float64')
     elif attack == 'MIA':
-        a = scared.MIAAttack(selection_function=sfw, model=hw, discriminant=scared.maxabs, partitions=range(9), bin_edges=np.linspace(-2, 38, 11))
+        a = scared.MIAAttack(selection_function=sfw, model=hw, discriminant=scared.maxabs, partitions=range(9), bin_edges=np.linspace(-2, 40, 11))
     else:       # template DPA on the first attacked word: build with the intermediate under the true key, match with hypotheses
         w0 = words[0]
         one = getattr(mod, fn)(guesses=np.array([kw_words[w0]], dtype='uint8'), words=w0)
@@ -141,7 +153,7 @@ def run(chk):
                         continue
                     attacks = ['CPA'] if fn == 'LastSubBytes' else ['SNR']
                 kwv = ark[ki]['last' if last else 'first']
-                words = sorted(rng.sample(range(16), 2))
+                words = sorted(rng.sample(range(16), 2), reverse=(run_i % 2 == 0))        # ascending and descending selections
                 guesses = sorted(set([kwv[w] for w in words]) | set(rng.sample(range(256), 30)))
                 inputs = cts if last else pts
                 for attack in attacks:
@@ -167,7 +179,7 @@ def run(chk):
             for fn, attacks in dfns:
                 last = fn.startswith('Last') or fn.endswith('LastRounds')
                 kwv = drk[ki]['last' if last else 'first']
-                words = sorted(rng.sample(range(8), 2))
+                words = sorted(rng.sample(range(8), 2), reverse=(run_i % 2 == 0))
                 guesses = list(range(64))
                 inputs = dcts if last else dpts
                 for attack in attacks:
